@@ -385,7 +385,7 @@ def gen_pf(rng: random.Random, stat: bool, quick: bool, force=None):
         if c["nonlinear"]:
             c["N"] = min(c["N"], 30000)
     else:
-        c["N"] = force.get("N", rng.choice([1, 2, 3, 5, 8, 17, 40, 100] + ([] if quick else [400])))
+        c["N"] = force.get("N", rng.choice([1, 2, 3, 5, 8, 17, 40, 100] + ([] if quick else [250])))
         if c["nonlinear"]:
             c["N"] = min(c["N"], 40)
         c["T"] = rng.choice([1, 2, 3])
@@ -513,9 +513,10 @@ def run_pf_corr(ctx: Ctx, c, lines, metas):
         # absolute error of a logit: conditioning of the quadratic form + cancellation in e = y - g(xp)
         gpre = torch.tensor(uf.NpFam(d["prm"], t_eff).gpre(rec["xp"].double().numpy(), np.array(st["u"])), dtype=torch.float64)
         epre = gpre.amax(dim=-1) + float(ly.abs().max())
+        fpre = float(uf.NpFam(d["prm"], t_eff).fpre(rec["xp"].double().numpy(), np.array(st["u"])).max())
         dlogit = (le @ lRi).abs().sum(dim=-1) * epre
         metas.append({"case": stepcase, "x": x2.detach().clone(), "P": P2.detach().clone(), "q": rec["q"], "xs": xs, "xr": xr,
-                      "margin": margin, "eps": eps, "scaleP": scaleP, "maha": maha, "dlogit": dlogit,
+                      "margin": margin, "eps": eps, "scaleP": scaleP + fpre ** 2, "maha": maha, "dlogit": dlogit, "fpre": fpre,
                       "kappaR": float(torch.linalg.cond(lR))})
         if j == 0:
             ctx.sample(dict(c), cap=10)
@@ -563,7 +564,7 @@ def compare_pf(ctx: Ctx, lines, metas, verbose=False, reps=None):
             bad = int((want_xr != me["xr"]).any(dim=-1).nonzero()[0])
             ctx.disagree("pf-corr", case, f"resampled set differs from the model's choice at draw {bad} (model index {idx[bad]})")
             continue
-        sx = float(me["xr"].double().abs().max()) + 1e-300
+        sx = max(float(me["xr"].double().abs().max()), me["fpre"]) + 1e-300   # pre-cancellation size of f at the particles
         tolx, tolP = CTOL * eps * sx, CTOL * eps * me["scaleP"]
         dx, dP = uf.maxdiff(me["x"], mx), uf.maxdiff(me["P"], mP)
         if verbose:
@@ -643,10 +644,15 @@ def run_pf_stat(ctx: Ctx, c, verbose=False):
                 x, P = x2.detach(), P2.detach()
                 continue
         ctx.hist["pf-stat.maxN/ESS"] = max(ctx.hist.get("pf-stat.maxN/ESS", 0.0), cfac)
+        sdev = math.sqrt(n * float(torch.tensor(Pl).abs().max()))
+        fpre0 = float(uf.NpFam(d["prm"], t_eff).fpre(np.abs(np.array(xl))[None, :] + 4 * sdev, np.array(st["u"])).max())
         worst = 0.0
-        for i in range(n):
+        # the band is a central-limit statement: it needs a sizeable effective sample (N/ESS = E[w~^2])
+        verdict = N / max(cfac, 1.0) >= 200
+        ctx.count("pf-stat.verdicts" if verdict else "pf-stat.low-ess-no-verdict")
+        for i in (range(n) if verdict else []):
             sigma = math.sqrt(max(var1[i], 0.0) / N)
-            floor = 64 * eps * math.log2(N) * (abs(ref[i]) + float(x2.double().abs().max()) + 1.0)
+            floor = 64 * eps * math.log2(N) * (abs(ref[i]) + float(x2.double().abs().max()) + fpre0)
             z = abs(float(x2[i]) - ref[i]) / (sigma + 1e-300)
             worst = max(worst, (abs(float(x2[i]) - ref[i]) - floor) / (sigma + 1e-300))
             if abs(float(x2[i]) - ref[i]) > 6.5 * sigma + floor:
@@ -662,7 +668,7 @@ def run_pf_stat(ctx: Ctx, c, verbose=False):
         asym, lam, ok = psd_check(P2, CTOL * eps * scaleP * math.log2(N))
         if not ok:
             ctx.fail(stepcase, f"psd: PF covariance asymmetry {asym:.3e} min eigenvalue {lam:.3e} (N={N})")
-        if not c["nonlinear"]:
+        if not c["nonlinear"] and verdict:
             want = cov_f + uf.M(d["Qc"])
             for i in range(n):
                 wv = float(want[i, i])
@@ -715,7 +721,7 @@ def run(ctx: Ctx):
     t0 = time.time()
     torch.set_num_threads(1)      # tiny matrices: thread hand-off costs more than the work
     lines, metas = [], []
-    n_runs = ctx.pick(100, 1000)
+    n_runs = ctx.pick(100, 400)
     forced = [{"filter": "ekf", "nonlinear": False}, {"filter": "ukf", "nonlinear": False},
               {"filter": "ekf", "nonlinear": True}, {"filter": "ukf", "nonlinear": True},
               {"filter": "ukf", "nonlinear": False, "k": "none"}, {"filter": "ukf", "nonlinear": False, "k": "-n+0.5"},
@@ -730,7 +736,7 @@ def run(ctx: Ctx):
     t1 = time.time()
     # PF with recorded draws
     plines, pmetas = [], []
-    for i in range(ctx.pick(30, 300)):
+    for i in range(ctx.pick(30, 120)):
         run_pf_corr(ctx, gen_pf(rng, False, ctx.quick), plines, pmetas)
     t2 = time.time()
     # one batch through the model (fans out over processes), heavy PF lines first
@@ -742,7 +748,7 @@ def run(ctx: Ctx):
     torch.set_num_threads(4)
     forced = [{"N": 1000, "nonlinear": False}, {"N": 10000, "nonlinear": False}, {"N": 100000, "nonlinear": False, "T": 1},
               {"N": 3000, "nonlinear": True}, {"N": 1000000, "dtype": "float64", "nonlinear": False, "T": 1}]
-    for i in range(ctx.pick(12, 90)):
+    for i in range(ctx.pick(12, 40)):
         run_pf_stat(ctx, gen_pf(rng, True, ctx.quick, forced[i] if i < len(forced) else None))
     f32_large(ctx)
     t4 = time.time()
@@ -778,6 +784,12 @@ def search(ctx: Ctx):
 
 
 def replay(ctx: Ctx, case) -> bool:
+    if "case" not in case:      # a `no-failing-input-found` file: replay the first broken correspondence case
+        bc = case.get("broken_correspondence") or []
+        if not bc:
+            print("  nothing to replay (proof/audit failure only):", case.get("unchecked_theorems_or_build"))
+            return False
+        case = {"case": bc[0]["case"]}
     c = dict(case["case"])
     c.pop("step", None)
     kind = c.get("kind")
